@@ -29,6 +29,9 @@ import Glom.Model.C15Env
                           (`InitOK`: … and a copying factory copies a list / tuple / dict of h0)
     HandlerLaw h0 env     every `iterate` handler only READS input objects and yields input values
                           (true of the catalogue: `c15_catalogue_handlers_lawful`)
+    op lawful             `op` writes to nothing but its accumulator (`OpLaw`; the element-poking
+                          operator of the catalogue is the counter-example)
+    noMarkers h0 / NM     (special-case theorems only) no generator involved raises midway
     WFConv env            the extracted `except` clauses (c15_facts_wf, re-checked every run)
     WF env                … and chain objects are iterated with `iter` (flatten(levels ≥ 2) only)
     CacheOK H r           the registry's memo holds first-lookup answers only (true of every
@@ -58,21 +61,25 @@ theorem c15_spec_env_wf : WFConv specEnv = true ∧
     reached by earlier evaluations: with `items = iterate(glom(target, sub))` and
     `sv0 = init()` as a value, the outcome is `List.foldlM` (= `functools.reduce` in the
     exception monad) of the operator over the items — the same error, the same
-    immediate, or an object at a NEW address holding exactly the reduced content. -/
+    immediate, or an object at a NEW address holding exactly the reduced content.
+    (`guardOp`: an iterator that raises instead of yielding raises out of the loop.)
+    `items` are `target_iter` of the sub-spec's result under the handler table `env.lk`:
+    which handler that table names is the registry's business (C13, `c15_memo_invisible`),
+    how `T[…]` sub-specs evaluate is C01's. -/
 theorem c15_fold_eq_foldl (env : Env) (hwf : WFConv env = true) {h0 h : Heap} (c : Ctx h0 h) (hH : HandlerLaw h0 env)
-    (sub : List Val) (init : Init) (op : Op) (hinit : InitOK h0 init) (target : Val)
+    (sub : List Val) (init : Init) (op : Op) (hinit : InitOK h0 init) (hop : op ≠ .pokeElem) (target : Val)
     (hsub : ∀ k ∈ sub, Val.inb h0.length k = true) (ht : Val.inb h0.length target = true)
     (items : List Val) (hitems : refItems env h0 sub target = .ok items)
     (sv0 : SV) (hsv : initSV h0 init = some sv0) :
     let out := glomit env (mkFold sub init op) h target
-    match items.foldlM (foldStep (pyOp op) h0) sv0 with
+    match items.foldlM (foldStep (guardOp (pyOp op)) h0) sv0 with
     | .error e => out.1 = .error e
     | .ok (.imm v) => out.1 = .ok v
     | .ok (.cell o) => ∃ a, out.1 = .ok (.ref a) ∧ h.length ≤ a ∧ out.2[a]? = some o := by
-  have hg := (glomit_spec c env hH (WFConv_parts hwf).1 (mkFold sub init op) hinit hsub ht).2
+  have hg := (glomit_spec c env hH (WFConv_parts hwf).1 (mkFold sub init op) hinit hop hsub ht).2
   simp only [refSpec, mkFold, hitems, refKind, withInit, hsv, refReduce_eq_foldlM] at hg
   simp only [mkFold]
-  cases hr : items.foldlM (foldStep (pyOp op) h0) sv0 with
+  cases hr : items.foldlM (foldStep (guardOp (pyOp op)) h0) sv0 with
   | error e => rw [hr] at hg; exact hg
   | ok sv =>
     rw [hr] at hg
@@ -87,43 +94,56 @@ theorem c15_sum (env : Env) (hwf : WFConv env = true) {h0 h : Heap} (c : Ctx h0 
     (items : List Val) (hitems : refItems env h0 sub target = .ok items)
     (is : List Int) (hints : allInts items = some is) :
     (glomit env (mkSum sub .int) h target).1 = .ok (.int is.sum) := by
-  have hg := (glomit_spec c env hH (WFConv_parts hwf).1 (mkSum sub .int) (InitOK.plain h0 rfl rfl rfl) hsub ht).2
-  simp only [refSpec, mkSum, hitems, refKind, withInit, initSV, reduce_iadd_int h0 items is 0 hints,
+  have hg := (glomit_spec c env hH (WFConv_parts hwf).1 (mkSum sub .int) (InitOK.plain h0 rfl rfl rfl)
+    (by simp [mkSum]) hsub ht).2
+  simp only [refSpec, mkSum, hitems, refKind, withInit, initSV,
+    refReduce_guard_fold _ h0 items _ (allInts_nm hints), reduce_iadd_int h0 items is 0 hints,
     RefRes.ofSV, Int.zero_add] at hg
   exact hg.1
 
-/-- `Sum(init=list)` IS eager `Flatten()`: the same `+=` loop (list.__iadd__ extends the accumulator
-    in place with any iterable) over the same fresh list. -/
-theorem c15_sum_list_eq_flatten (env : Env) (sub : List Val) (h : Heap) (target : Val) :
-    glomit env (mkSum sub .list) h target = glomit env (mkFlatten sub (.init .list)) h target := by
-  simp [glomit, mkSum, mkFlatten, runFold]
-
-/-- **Flatten = chain.from_iterable.**  Eager `Flatten()` returns a NEW list holding the
-    concatenation of the items' own items (the very same element objects), or raises
-    TypeError when an item is not iterable. -/
+/-- **Flatten = chain.from_iterable.**  Eager `Flatten()` (`init=list`: the one `init` whose `+=`
+    accepts every iterable — for any other `init` the reference is the `+=` loop itself, reading
+    6.x) returns a NEW list holding the concatenation of the items' own items (the very same
+    element objects: the copy is shallow), or raises TypeError when an item is not iterable.
+    (`noMarkers`, `NM`: no generator involved raises midway.) -/
 theorem c15_flatten_eq_join (env : Env) (hwf : WFConv env = true) {h0 h : Heap} (c : Ctx h0 h) (hH : HandlerLaw h0 env)
     (sub : List Val) (target : Val)
     (hsub : ∀ k ∈ sub, Val.inb h0.length k = true) (ht : Val.inb h0.length target = true)
-    (items : List Val) (hitems : refItems env h0 sub target = .ok items) :
+    (items : List Val) (hitems : refItems env h0 sub target = .ok items)
+    (hnm : noMarkers h0 = true) (hni : NM items) :
     let out := glomit env (mkFlatten sub (.init .list)) h target
     match joinWith (rawIter1 h0) items with
     | some ys => ∃ a, out.1 = .ok (.ref a) ∧ h.length ≤ a ∧ out.2[a]? = some (.list "list" ys)
     | none => out.1 = .error typeErr := by
   have hg := (glomit_spec c env hH (WFConv_parts hwf).1 (mkFlatten sub (.init .list))
-    (InitOK.plain h0 rfl rfl rfl) hsub ht).2
+    (InitOK.plain h0 rfl rfl rfl) (by simp [mkFlatten]) hsub ht).2
   have hin := refItems_inb c.closed hH hsub ht hitems
-  simp only [refSpec, mkFlatten, hitems, refKind, withInit, initSV, reduce_iadd_list h0 items [],
+  simp only [refSpec, mkFlatten, hitems, refKind, withInit, initSV, refReduce_guard_fold _ h0 items _ hni,
+    reduce_iadd_list h0 c.closed hnm items [] hin hni,
     joinWith_raw_eq c.closed hin, Bool.false_eq_true, if_false, List.nil_append] at hg
   simp only [mkFlatten]
   cases hj : joinWith (rawIter1 h0) items with
   | none => rw [hj] at hg; exact hg
   | some ys => rw [hj] at hg; obtain ⟨a, h1, h2, h3, _⟩ := hg; exact ⟨a, h1, h2, h3⟩
 
+/-- **The copy is shallow** (reading 6.x(e): "results of separate evaluations share no state" is
+    about the result CONTAINERS): what eager `Flatten()` puts into its new list are the very
+    element objects of the inputs — input values, nothing allocated for them — so two evaluations
+    return distinct lists (`c15_independent`) holding the same element objects. -/
+theorem c15_result_shallow (env : Env) {h0 : Heap} (hc : closedHeap h0 = true) (hH : HandlerLaw h0 env)
+    (sub : List Val) (target : Val)
+    (hsub : ∀ k ∈ sub, Val.inb h0.length k = true) (ht : Val.inb h0.length target = true)
+    (items : List Val) (hitems : refItems env h0 sub target = .ok items)
+    (ys : List Val) (hj : joinWith (rawIter1 h0) items = some ys) :
+    (∀ x ∈ items, Val.inb h0.length x = true) ∧ (∀ y ∈ ys, Val.inb h0.length y = true) :=
+  ⟨refItems_inb hc hH hsub ht hitems, joinWith_inb hc hj⟩
+
 /-- **Lazy = eager.**  What `Flatten(init='lazy')` shows once consumed is what eager
     `Flatten()` shows: the same items in the same order, or the same TypeError. -/
 theorem c15_lazy_eq_eager (env : Env) (h0 : Heap) (hc : closedHeap h0 = true) (hH : HandlerLaw h0 env)
     (sub : List Val) (target : Val)
-    (hsub : ∀ k ∈ sub, Val.inb h0.length k = true) (ht : Val.inb h0.length target = true) :
+    (hsub : ∀ k ∈ sub, Val.inb h0.length k = true) (ht : Val.inb h0.length target = true)
+    (hnm : noMarkers h0 = true) (hni : ∀ items, refItems env h0 sub target = .ok items → NM items) :
     expectR env h0 (.flatten sub .lazy) target =
       match expectR env h0 (.flatten sub (.init .list)) target with
       | .fresh (.list _ ys) => .fresh (.tuple "chain" ys)
@@ -133,11 +153,14 @@ theorem c15_lazy_eq_eager (env : Env) (h0 : Heap) (hc : closedHeap h0 = true) (h
   | error e => cases e <;> rfl
   | ok items =>
     have hin := refItems_inb hc hH hsub ht hitems
-    simp only [refKind, withInit, initSV, reduce_iadd_list h0 items [], joinWith_raw_eq hc hin,
+    simp only [refKind, withInit, initSV, refReduce_guard_fold _ h0 items _ (hni items hitems),
+      reduce_iadd_list h0 hc hnm items [] hin (hni items hitems), joinWith_raw_eq hc hin,
       Bool.false_eq_true, if_false, if_true, List.nil_append, showRef, showNew, beq_self_eq_true]
-    cases joinWith (rawIter1 h0) items with
+    cases hj : joinWith (rawIter1 h0) items with
     | none => rfl
-    | some ys => rfl
+    | some ys =>
+      have := (firstRaise_none_iff ys).mpr (joinWith_nm hnm (hni items hitems) hj)
+      simp only [this, RefRes.ofSV]
 
 /-- **flatten(levels = n+1) = join^(n+1).**  The default `flatten()` with `levels = n+1`
     returns a NEW list holding the (n+1)-fold `chain.from_iterable` of the items, or
@@ -147,19 +170,20 @@ theorem c15_levels (env : Env) (hwf : WF env = true) {h0 h : Heap} (c : Ctx h0 h
     (hiter : env.run "iter" = rawIter)
     (sub : List Val) (n : Nat) (target : Val)
     (hsub : ∀ k ∈ sub, Val.inb h0.length k = true) (ht : Val.inb h0.length target = true)
-    (items : List Val) (hitems : refItems env h0 sub target = .ok items) :
+    (items : List Val) (hitems : refItems env h0 sub target = .ok items)
+    (hnm : noMarkers h0 = true) (hni : NM items) :
     let out := flattenFn env sub (.init .list) ((n : Int) + 1) h target
     match joinN h0 (n + 1) items with
     | some ys => ∃ a, out.1 = .ok (.ref a) ∧ h.length ≤ a ∧ out.2[a]? = some (.list "list" ys)
     | none => out.1 = .error typeErr := by
   obtain ⟨hcatch, hchain, _⟩ := WF_parts hwf hiter
   have hg := (flattenFn_spec c env hH (levels := (n : Int) + 1) (fun _ => hchain) hcatch sub (.init .list)
-    (InitOK.plain h0 rfl rfl rfl) hsub ht).2
+    (Or.inr (InitOK.plain h0 rfl rfl rfl)) hsub ht).2
   have h0l : (((n : Int) + 1) == 0) = false := by
     simp only [beq_eq_false_iff_ne, ne_eq]; omega
   have hneg : ¬ ((n : Int) + 1) < 0 := by omega
   have htn : ((n : Int) + 1).toNat - 1 = n := by omega
-  rw [refFlattenFn_pos env h0 sub _ _ target h0l hneg, hitems, htn] at hg
+  rw [refFlattenFn_pos env h0 sub _ _ target h0l hneg rfl, hitems, htn] at hg
   simp only at hg
   have hin := refItems_inb c.closed hH hsub ht hitems
   rw [joinN_succ']
@@ -168,23 +192,14 @@ theorem c15_levels (env : Env) (hwf : WF env = true) {h0 h : Heap} (c : Ctx h0 h
   | some zs =>
     rw [hj] at hg
     have hz := joinN_inb c.closed n items zs hin hj
-    simp only [refAfter, refKind, mkFlatten, withInit, initSV, reduce_iadd_list h0 zs [],
+    simp only [refAfter, refKind, mkFlatten, withInit, initSV,
+      refReduce_guard_fold _ h0 zs _ (joinN_nm hnm n items zs hni hj), reduce_iadd_list h0 c.closed hnm zs [] hz (joinN_nm hnm n items zs hni hj),
       joinWith_raw_eq c.closed hz, Bool.false_eq_true, if_false, List.nil_append] at hg
     cases hj2 : joinWith (rawIter1 h0) zs with
     | none => simp only [hj2, RefRes.ofSV] at hg ⊢; exact hg
     | some ys =>
       simp only [hj2, RefRes.ofSV] at hg ⊢
       obtain ⟨a, h1, h2, h3, _⟩ := hg; exact ⟨a, h1, h2, h3⟩
-
-theorem c15_levels_zero (env : Env) (sub : List Val) (init : InitArg) (h : Heap) (target : Val) :
-    flattenFn env sub init 0 h target = (.ok target, h) := rfl
-
-theorem c15_levels_negative (env : Env) (sub : List Val) (init : InitArg) (l : Int) (hl : l < 0)
-    (h : Heap) (target : Val) :
-    flattenFn env sub init l h target = (.error (.raised "ValueError"), h) := by
-  unfold flattenFn
-  have : (l == 0) = false := by simp only [beq_eq_false_iff_ne, ne_eq]; omega
-  simp [this, hl]
 
 /-- **Merge: last writer wins.**  `Merge()` / `merge()` over dict items returns a NEW dict
     in which every key maps to the value of the LAST pair (over all items, in order)
@@ -197,9 +212,11 @@ theorem c15_merge_last_wins (env : Env) (hwf : WFConv env = true) {h0 h : Heap} 
     let out := mergeFn env sub .dict .none h target
     ∃ a es, out.1 = .ok (.ref a) ∧ h.length ≤ a ∧ out.2[a]? = some (.dict "dict" es) ∧
       ∀ k, dictLookup es k = lastPair ds.flatten k := by
-  have hg := (mergeFn_spec c env hH (WFConv_parts hwf).1 sub .dict .none (InitOK.plain h0 rfl rfl rfl) hsub ht).2
+  have hg := (mergeFn_spec c env hH (WFConv_parts hwf).1 sub .dict .none (Or.inr (InitOK.plain h0 rfl rfl rfl))
+    hsub ht).2
   have hop : refMergeOp h0 .dict .none = .ok (.update "dict") := rfl
   simp only [refMerge, hop, refSpec, hitems, refKind, withInit, initSV,
+    refReduce_guard_merge _ h0 items _ (dictsOf_nm hds),
     reduce_update_dicts h0 "dict" (by decide) items ds [] hds, RefRes.ofSV] at hg
   obtain ⟨a, h1, h2, h3, _⟩ := hg
   refine ⟨a, _, h1, h2, h3, ?_⟩
@@ -212,20 +229,22 @@ theorem c15_merge_last_wins (env : Env) (hwf : WFConv env = true) {h0 h : Heap} 
 theorem c15_frame (env : Env) (hwf : WF env = true) (h0 : Heap) (hH : HandlerLaw h0 env)
     (hiter : env.run "iter" = rawIter) (p : Prog) (targets : List Val)
     (hcase : wfCase h0 targets = true) (hp : (progVals p).all (Val.inb h0.length) = true)
-    (hinit : p.initAllocates = true) (hw : p.initWF h0 = true) :
+    (hinit : p.initAllocates = true) (hw : p.initWF h0 = true) (hlaw : p.opLawful = true)
+    (hctor : ctorErr p = none) :
     ∀ a, a < h0.length → (runProg env p targets h0).2[a]? = h0[a]? := by
   simp only [wfCase, Bool.and_eq_true] at hcase
-  exact (runProg_spec env hwf h0 hcase.1 hH hiter p ⟨allInb hp, hinit, hw⟩ targets (allInb hcase.2)).1.2
+  exact (runProg_spec env hwf h0 hcase.1 hH hiter p ⟨allInb hp, hinit, hw, hlaw, hctor⟩ targets
+    (allInb hcase.2)).1.2
 
 /-- **Fresh.**  A container a spec object returns did not exist before this evaluation:
     its address is beyond everything allocated so far — the inputs AND the results of
     all earlier evaluations of the same spec object. -/
 theorem c15_fresh (env : Env) (hwf : WFConv env = true) {h0 h : Heap} (c : Ctx h0 h) (hH : HandlerLaw h0 env)
-    (s : FoldSpec) (hinit : InitOK h0 s.init) (target : Val)
+    (s : FoldSpec) (hinit : InitOK h0 s.init) (hop : s.op ≠ .pokeElem) (target : Val)
     (hsub : ∀ k ∈ s.sub, Val.inb h0.length k = true) (ht : Val.inb h0.length target = true)
     (a : Nat) (hres : (glomit env s h target).1 = .ok (.ref a)) :
     h.length ≤ a ∧ a < (glomit env s h target).2.length := by
-  have hg := (glomit_spec c env hH (WFConv_parts hwf).1 s hinit hsub ht).2
+  have hg := (glomit_spec c env hH (WFConv_parts hwf).1 s hinit hop hsub ht).2
   cases hr : refSpec env h0 s target with
   | err e => rw [hr] at hg; simp only [ResRel] at hg; rw [hg] at hres; cases hres
   | imm v =>
@@ -240,7 +259,7 @@ theorem c15_fresh (env : Env) (hwf : WFConv env = true) {h0 h : Heap} (c : Ctx h
 /-- **Independence.**  Evaluating the same spec object twice: the second result is a
     different object and the second evaluation leaves the first result untouched. -/
 theorem c15_independent (env : Env) (hwf : WFConv env = true) (h0 : Heap) (hc : closedHeap h0 = true)
-    (hH : HandlerLaw h0 env) (s : FoldSpec) (hinit : InitOK h0 s.init) (t1 t2 : Val)
+    (hH : HandlerLaw h0 env) (s : FoldSpec) (hinit : InitOK h0 s.init) (hop : s.op ≠ .pokeElem) (t1 t2 : Val)
     (hsub : ∀ k ∈ s.sub, Val.inb h0.length k = true)
     (ht1 : Val.inb h0.length t1 = true) (ht2 : Val.inb h0.length t2 = true) (a1 a2 : Nat) :
     let e1 := glomit env s h0 t1
@@ -248,23 +267,12 @@ theorem c15_independent (env : Env) (hwf : WFConv env = true) (h0 : Heap) (hc : 
     e1.1 = .ok (.ref a1) → e2.1 = .ok (.ref a2) → a1 ≠ a2 ∧ e2.2[a1]? = e1.2[a1]? := by
   intro e1 e2 hr1 hr2
   have c0 := Ctx.base hc
-  have g1 := glomit_spec c0 env hH (WFConv_parts hwf).1 s hinit hsub ht1
+  have g1 := glomit_spec c0 env hH (WFConv_parts hwf).1 s hinit hop hsub ht1
   have c1 : Ctx h0 e1.2 := c0.step (Nat.le_refl _) g1.1
-  have f1 : h0.length ≤ a1 ∧ a1 < e1.2.length := c15_fresh env hwf c0 hH s hinit t1 hsub ht1 a1 hr1
-  have f2 : e1.2.length ≤ a2 ∧ a2 < e2.2.length := c15_fresh env hwf c1 hH s hinit t2 hsub ht2 a2 hr2
-  have g2 := glomit_spec c1 env hH (WFConv_parts hwf).1 s hinit hsub ht2
+  have f1 : h0.length ≤ a1 ∧ a1 < e1.2.length := c15_fresh env hwf c0 hH s hinit hop t1 hsub ht1 a1 hr1
+  have f2 : e1.2.length ≤ a2 ∧ a2 < e2.2.length := c15_fresh env hwf c1 hH s hinit hop t2 hsub ht2 a2 hr2
+  have g2 := glomit_spec c1 env hH (WFConv_parts hwf).1 s hinit hop hsub ht2
   exact ⟨by omega, g2.1.2 a1 f1.2⟩
-
-/-- **FoldError.**  A target without a registered `iterate` (int, str, None, a plain object …)
-    makes every Fold / Sum / Flatten / Merge raise FoldError — a GlomError — and nothing
-    is allocated or touched. -/
-theorem c15_fold_error (env : Env) (hwf : WFConv env = true) (s : FoldSpec) (h : Heap) (target t : Val)
-    (hsub : evalSub h s.sub target = .ok t) (hun : targetIter env h t = .error .unregistered) :
-    glomit env s h target = (.error .fold, h) ∧ errR env .fold = .err "FoldError" true := by
-  obtain ⟨hcatch, _, hglom⟩ := WFConv_parts hwf
-  constructor
-  · simp [glomit, hsub, hun, convertIterErr, hcatch]
-  · simp [errR, hglom]
 
 /-- **Checker theorem** — the form in which the property is evaluated on the
     implementation's observation by the correspondence driver: the model's own
@@ -272,12 +280,14 @@ theorem c15_fold_error (env : Env) (hwf : WFConv env = true) (s : FoldSpec) (h :
 theorem c15_model_checks (env : Env) (hwf : WF env = true) (h0 : Heap) (hH : HandlerLaw h0 env)
     (hiter : env.run "iter" = rawIter) (p : Prog) (targets : List Val)
     (hcase : wfCase h0 targets = true) (hp : (progVals p).all (Val.inb h0.length) = true)
-    (hinit : p.initAllocates = true) (hw : p.initWF h0 = true) :
+    (hinit : p.initAllocates = true) (hw : p.initWF h0 = true) (hlaw : p.opLawful = true)
+    (hctor : ctorErr p = none) :
     checkC15 env h0 p targets (observe env h0.length (runProg env p targets h0)) = true := by
   have hcase' := hcase
   simp only [wfCase, Bool.and_eq_true] at hcase'
-  have hs := runProg_spec env hwf h0 hcase'.1 hH hiter p ⟨allInb hp, hinit, hw⟩ targets (allInb hcase'.2)
-  simp only [checkC15, hinit, observe, hs.2, take_of_frame rfl hs.1]
+  have hs := runProg_spec env hwf h0 hcase'.1 hH hiter p ⟨allInb hp, hinit, hw, hlaw, hctor⟩ targets
+    (allInb hcase'.2)
+  simp only [checkC15, Prog.hyps, hinit, hlaw, observe, hs.2, take_of_frame rfl hs.1]
   simp
 
 /-! ### arbitrary `init` / `op`; Merge with a custom `op`; every `init` of flatten(); errors -/
@@ -331,14 +341,18 @@ theorem c15_merge_any_op {h0 h : Heap} (c : Ctx h0 h) {ini : InitFn} {sv0 : SV} 
     | imm v => exact hr.1
     | cell o => obtain ⟨a, h1, h2, h3, _⟩ := hr; exact ⟨a, h1, h2, h3⟩
 
-/-- every operator and every allocating factory of the catalogue meets the laws: `+=` (list:
-    extend in place; Acc: append in place; tuple / str / numbers: a new value), `+`, Count's
-    lambda, `dict.update` / `OrderedDict.update` / `Acc.update`, `first_wins`, `append`, `cons`;
-    `int`, `float`, `str`, `list`, `tuple`, `dict`, `OrderedDict`, `Acc`, a copying factory. -/
+/-- every operator but the element-poking one, and every allocating factory of the catalogue, meets
+    the laws: `+=` (list: extend in place; Acc: append in place; tuple / str / numbers: a new
+    value), `+`, Count's lambda, `dict.update` / `OrderedDict.update` / `Acc.update`,
+    `list.extend`, `list.append`, `first_wins`, `append`, `cons`, `{**a, **b}`, the operator that
+    raises UnregisteredTarget; with the loop's own check (`guardOp`) they still do;
+    `int`, `float`, `str`, `list`, `tuple`, `dict`, `OrderedDict`, `Acc`, `set`, a copying factory.
+    `lambda a, v: (v.append(0), a)[1]` — an operator that writes to its ELEMENT — does not
+    (`c15_element_writing_op_counterexample`). -/
 theorem c15_catalogue_lawful (h0 : Heap) :
-    (∀ op : Op, OpLaw h0 (pyOp op)) ∧
+    (∀ op : Op, op ≠ .pokeElem → OpLaw h0 (pyOp op) ∧ OpLaw h0 (guardOp (pyOp op))) ∧
     (∀ i : Init, InitOK h0 i → ∃ sv, initSV h0 i = some sv ∧ InitLaw h0 (callInit i) sv) :=
-  ⟨pyOp_law h0, fun _ hi => callInit_law hi⟩
+  ⟨fun op hop => ⟨pyOp_law h0 op hop, guardOp_law (pyOp_law h0 op hop)⟩, fun _ hi => callInit_law hi⟩
 
 /-- the `iterate` handlers of the catalogue (`iter`, reversed, tail, as-a-list, the `items`
     attribute, a raising one) meet `HandlerLaw` on every closed heap, in the extracted and in the
@@ -361,9 +375,11 @@ theorem c15_merge_first_wins (env : Env) (hwf : WFConv env = true) {h0 h : Heap}
     let out := mergeFn env sub .dict .firstWins h target
     ∃ a es, out.1 = .ok (.ref a) ∧ h.length ≤ a ∧ out.2[a]? = some (.dict "dict" es) ∧
       ∀ k, dictLookup es k = firstPair ds.flatten k := by
-  have hg := (mergeFn_spec c env hH (WFConv_parts hwf).1 sub .dict .firstWins (InitOK.plain h0 rfl rfl rfl) hsub ht).2
+  have hg := (mergeFn_spec c env hH (WFConv_parts hwf).1 sub .dict .firstWins
+    (Or.inr (InitOK.plain h0 rfl rfl rfl)) hsub ht).2
   have hop : refMergeOp h0 .dict .firstWins = .ok .firstWins := rfl
   simp only [refMerge, hop, refSpec, hitems, refKind, withInit, initSV,
+    refReduce_guard_merge _ h0 items _ (dictsOf_nm hds),
     reduce_firstWins_dicts h0 "dict" items ds [] hds, RefRes.ofSV] at hg
   obtain ⟨a, h1, h2, h3, _⟩ := hg
   refine ⟨a, _, h1, h2, h3, ?_⟩
@@ -376,7 +392,8 @@ theorem c15_merge_first_wins (env : Env) (hwf : WFConv env = true) {h0 h : Heap}
     called once, at the last level only. -/
 theorem c15_levels_any_init (env : Env) (hwf : WF env = true) {h0 h : Heap} (c : Ctx h0 h) (hH : HandlerLaw h0 env)
     (hiter : env.run "iter" = rawIter)
-    (sub : List Val) (init : InitArg) (hinit : InitArgOK h0 init) (n : Nat) (target : Val)
+    (sub : List Val) (init : InitArg) (hinit : InitArgOK h0 init) (hnc : init ≠ .init .notCallable)
+    (n : Nat) (target : Val)
     (hsub : ∀ k ∈ sub, Val.inb h0.length k = true) (ht : Val.inb h0.length target = true)
     (items : List Val) (hitems : refItems env h0 sub target = .ok items) :
     let out := flattenFn env sub init ((n : Int) + 1) h target
@@ -386,12 +403,13 @@ theorem c15_levels_any_init (env : Env) (hwf : WF env = true) {h0 h : Heap} (c :
        | none => .err typeErr
        | some ys => refKind h0 (mkFlatten [] init) ys) := by
   obtain ⟨hcatch, hchain, _⟩ := WF_parts hwf hiter
-  have hg := flattenFn_spec c env hH (levels := (n : Int) + 1) (fun _ => hchain) hcatch sub init hinit hsub ht
+  have hg := flattenFn_spec c env hH (levels := (n : Int) + 1) (fun _ => hchain) hcatch sub init (Or.inr hinit)
+    hsub ht
   have h0l : (((n : Int) + 1) == 0) = false := by
     simp only [beq_eq_false_iff_ne, ne_eq]; omega
   have hneg : ¬ ((n : Int) + 1) < 0 := by omega
   have htn : ((n : Int) + 1).toNat - 1 = n := by omega
-  rw [refFlattenFn_pos env h0 sub _ _ target h0l hneg, hitems, htn] at hg
+  rw [refFlattenFn_pos env h0 sub _ _ target h0l hneg (by simpa using hnc), hitems, htn] at hg
   refine ⟨hg.1.2, ?_⟩
   have := hg.2
   simp only [refAfter] at this
@@ -399,39 +417,66 @@ theorem c15_levels_any_init (env : Env) (hwf : WF env = true) {h0 h : Heap} (c :
   | none => rw [hj] at this; exact this
   | some ys => rw [hj] at this; exact this
 
+/-- **FoldError — for the target, and only for the target.**  Against ANY registry state with a
+    consistent memo (a `False` remembered by an earlier `raise_exc=False` lookup included), a
+    target whose class the TABLES give no `iterate` handler makes Fold / Sum / Flatten / Merge
+    raise FoldError — a GlomError: `init()` is not called, nothing is allocated, the tables are
+    as they were. -/
+theorem c15_fold_error (H : Hier) (env : Env) (hwf : WFConv env = true) (s : FoldSpec) (r : Reg)
+    (hc : CacheOK H r) (h : Heap) (target t : Val)
+    (hsub : evalSub h s.sub target = .ok t)
+    (hun : C13.resolve H r "iterate" (t.clsName h) = some none) :
+    (glomitR H env s r h target).1 = (.error .fold, h) ∧ C13.EqC (glomitR H env s r h target).2 r ∧
+    errR env .fold = .err "FoldError" true := by
+  obtain ⟨hcatch, _, hglom⟩ := WFConv_parts hwf
+  obtain ⟨b1, b2, _⟩ := glomitR_bridge H env s r h target hc
+  refine ⟨?_, b2, by simp [errR, hglom]⟩
+  rw [b1]
+  have hcatch' : regLookup (envOf H env r).foldCatch "UnregisteredTarget" = some "FoldError" := hcatch
+  simp [glomit, hsub, targetIter, applyHandler, envOf, pureLk, hun, convertIterErr, hcatch]
+
 /-- **A handler that raises is a TypeError, not a FoldError**: `target_iter` looks the handler up
     OUTSIDE its `try` (UnregisteredTarget → Fold.glomit's `except` → FoldError) and calls it
-    INSIDE (`except Exception` → TypeError, which Fold.glomit does not catch); `init()` is not
-    called, nothing is allocated. -/
-theorem c15_handler_error (env : Env) (hwf : WFConv env = true) (s : FoldSpec) (h : Heap) (target t : Val)
-    (hn : String) (hsub : evalSub h s.sub target = .ok t) (hlk : env.lk (t.clsName h) = .ok hn)
+    INSIDE (`except Exception` → TypeError, which Fold.glomit does not catch) — against any
+    registry state; `init()` is not called, nothing is allocated. -/
+theorem c15_handler_error (H : Hier) (env : Env) (hwf : WFConv env = true) (s : FoldSpec) (r : Reg)
+    (hc : CacheOK H r) (h : Heap) (target t : Val) (hn : String)
+    (hsub : evalSub h s.sub target = .ok t)
+    (hlk : C13.resolve H r "iterate" (t.clsName h) = some (some hn))
     (hrun : env.run hn h t = none) :
-    glomit env s h target = (.error typeErr, h) ∧ errR env typeErr = .err "TypeError" false := by
+    (glomitR H env s r h target).1 = (.error typeErr, h) ∧ errR env typeErr = .err "TypeError" false := by
   obtain ⟨_, hiter, _⟩ := WFConv_parts hwf
   have hne : env.excTable.isSub "TypeError" "GlomError" = false := by
     simp only [WFConv, Bool.and_eq_true, Bool.not_eq_eq_eq_not, Bool.not_true] at hwf
     exact hwf.1.2
+  obtain ⟨b1, _, _⟩ := glomitR_bridge H env s r h target hc
   constructor
-  · simp [glomit, hsub, targetIter, applyHandler, hlk, hrun, handlerFailure, hiter, convertIterErr, typeErr]
+  · rw [b1]
+    have hrun' : (envOf H env r).run hn h t = none := hrun
+    simp [glomit, hsub, targetIter, applyHandler, envOf, pureLk, hlk, hrun, handlerFailure, hiter,
+      convertIterErr, typeErr]
   · simp [errR, typeErr, hne]
 
-/-- **The sub-spec is evaluated first**: when it fails, that error (PathAccessError) is the
-    outcome — no handler is looked up (the registry, memo included, is untouched), `init()` is
-    not called, nothing is allocated. -/
-theorem c15_subspec_error_first (H : Hier) (env : Env) (s : FoldSpec) (r : Reg) (h : Heap) (target : Val)
-    (e : Err) (he : evalSub h s.sub target = .error e) :
-    glomitR H env s r h target = ((.error e, h), r) := by
-  simp [glomitR, he]
-
-/-- … and `init()` is called AFTER the handler was found and called: an unregistered target or a
-    raising handler leaves the heap exactly as it was (`c15_fold_error`, `c15_handler_error`);
-    Merge's constructor is the one place where `init()` runs outside an evaluation. -/
-theorem c15_merge_ctor_calls_init (sub : List Val) (h : Heap) :
-    (mkMerge sub .dict .none h).2 = h ++ [.dict "dict" []] ∧
-    (mkMerge sub .dict .iadd h).2 = h := by
-  constructor
-  · simp [mkMerge, callInit, materialise, Val.clsName, methodOf, Obj.cls]
-  · rfl
+/-- **An exception raised INSIDE the loop is not the target's** (6be71d7): when the iterator raises
+    an exception of class `cl` after yielding `pre` — UnregisteredTarget included, as
+    `glom(t, Iter([T]))` does at a non-iterable element — Fold raises `cl`, not FoldError: only the
+    call of `target_iter` is inside Fold.glomit's `try`.  (An UnregisteredTarget raised by `op`
+    is the `.error` case of `c15_fold_eq_foldl`.) -/
+theorem c15_loop_error_propagates (env : Env) (hwf : WFConv env = true) {h0 h : Heap} (c : Ctx h0 h)
+    (hH : HandlerLaw h0 env)
+    (sub : List Val) (init : Init) (op : Op) (hinit : InitOK h0 init) (hop : op ≠ .pokeElem) (target : Val)
+    (hsub : ∀ k ∈ sub, Val.inb h0.length k = true) (ht : Val.inb h0.length target = true)
+    (pre post : List Val) (v : Val) (cl : String)
+    (hitems : refItems env h0 sub target = .ok (pre ++ v :: post)) (hm : raiseMarker v = some cl)
+    (sv0 sv : SV) (hsv : initSV h0 init = some sv0)
+    (hpre : pre.foldlM (foldStep (guardOp (pyOp op)) h0) sv0 = .ok sv) :
+    (glomit env (mkFold sub init op) h target).1 = .error (.raised cl) := by
+  have := c15_fold_eq_foldl env hwf c hH sub init op hinit hop target hsub ht _ hitems sv0 hsv
+  have hf : (pre ++ v :: post).foldlM (foldStep (guardOp (pyOp op)) h0) sv0 = .error (.raised cl) := by
+    rw [List.foldlM_append, hpre]
+    simp [List.foldlM_cons, foldStep, guardOp, hm, bind, Except.bind, Except.map]
+  simp only [hf] at this
+  exact this
 
 /-! ### the target's iteration is the handler registered AT THE TIME OF THE CALL -/
 
@@ -471,34 +516,38 @@ theorem c15_register_immediate (H : Hier) (r : Reg) (cls : String) (e : Bool) (k
   simp only [pureLk, resolve_register_self H r cls e kw "iterate" hd hk]
   cases hd <;> rfl
 
-/-- every registry a process starts from has a consistent (empty) memo, and histories keep it so:
-    the final registry of any history differs from "the registrations alone" in its memo only -/
+/-- every registry a process starts from has a consistent (empty) memo, and EVERY run keeps it so —
+    whatever the program (Merge and refused constructors included), whatever the history
+    (evaluations, registrations, `raise_exc=False` lookups that remember a `False`); when the spec
+    object got built, the final registry differs from "the registrations alone" in its memo only -/
 theorem c15_reachable_cache_ok (H : Hier) (S : C13.Setup) (d : Bool) (env : Env) (p : Prog)
-    (hm : p.isMerge = false) (events : List Event) (h : Heap) :
+    (events : List Event) (h : Heap) :
     CacheOK H (C13.freshReg H S d) ∧
-    C13.EqC (runProgR H env p events (C13.freshReg H S d) h).2.2 (events.foldl (regAfter H) (C13.freshReg H S d)) ∧
-    CacheOK H (runProgR H env p events (C13.freshReg H S d) h).2.2 := by
+    CacheOK H (runHistory H env p events (C13.freshReg H S d) h).2.2 ∧
+    ((runHistory H env p events (C13.freshReg H S d) h).2.2 = C13.freshReg H S d ∨
+      C13.EqC (runHistory H env p events (C13.freshReg H S d) h).2.2
+        (events.foldl (regAfter H) (C13.freshReg H S d))) := by
   have h0 : CacheOK H (C13.freshReg H S d) := CacheOK.of_empty (freshReg_cache H S d)
-  rw [runProgR_eq H env p hm]
-  exact ⟨h0, evalEvents_reg (progEvalR_bridge H env p) events _ h h0⟩
+  exact ⟨h0, runHistory_reg H env p events _ h h0⟩
 
-/-- **Histories.**  One spec object, any interleaving of evaluations and `register(…)` calls on
-    the registry the evaluations use (the default registry, a Glommer's), any class hierarchy:
-    no pre-existing object changes, and an observer sees, for EVERY evaluation, exactly the
-    reference reduction over the iteration the registry's tables name at that moment — the
-    registrations made so far, nothing remembered from earlier lookups. -/
+/-- **Histories.**  One spec object, any interleaving of evaluations, `register(…)` calls and
+    non-raising lookups on the registry the evaluations use (the default registry, a Glommer's),
+    any class hierarchy: no pre-existing object changes, and an observer sees, for EVERY
+    evaluation, exactly the reference reduction over the iteration the registry's tables name at
+    that moment — the registrations made so far, nothing remembered from earlier lookups; a spec
+    class whose constructor refuses its arguments evaluates nothing. -/
 theorem c15_history (H : Hier) (env : Env) (hconv : WFConv env = true) (h0 : Heap) (hH : HandlerLaw h0 env)
     (hiter : env.run "iter" = rawIter) (p : Prog) (events : List Event)
     (hcase : wfCase h0 (Event.targets events) = true) (hp : (progVals p).all (Val.inb h0.length) = true)
-    (hinit : p.initAllocates = true) (hw : p.initWF h0 = true)
+    (hinit : p.initAllocates = true) (hw : p.initWF h0 = true) (hlaw : p.opLawful = true)
     (r : Reg) (hcr : CacheOK H r)
     (hchain : p.usesChain = false ∨ chainIterAlong H env events r = true) :
-    (∀ a, a < h0.length → (runProgR H env p events r h0).2.1[a]? = h0[a]?) ∧
-    observeAll env h0.length (runProgR H env p events r h0).2.1 [] (runProgR H env p events r h0).1 =
-      expectAll H env h0 p events r := by
+    (∀ a, a < h0.length → (runHistory H env p events r h0).2.1[a]? = h0[a]?) ∧
+    observeAll env h0.length (runHistory H env p events r h0).2.1 [] (runHistory H env p events r h0).1 =
+      expectHistory H env h0 p events r := by
   simp only [wfCase, Bool.and_eq_true] at hcase
   obtain ⟨hcatch, hconvI, _⟩ := WFConv_parts hconv
-  have := runProgR_spec H env hconv h0 hcase.1 p ⟨allInb hp, hinit, hw⟩ events (allInb hcase.2) r hcr
+  have := runHistory_spec H env hconv h0 hcase.1 p (allInb hp) hinit hw hlaw events (allInb hcase.2) r hcr
     (histOK_of_bool hH hiter hcatch hconvI events r hchain)
   exact ⟨this.1.2, this.2⟩
 
@@ -508,18 +557,18 @@ theorem c15_history (H : Hier) (env : Env) (hconv : WFConv env = true) (h0 : Hea
 theorem c15_history_checks (H : Hier) (env : Env) (hconv : WFConv env = true) (h0 : Heap)
     (hH : HandlerLaw h0 env) (hiter : env.run "iter" = rawIter) (p : Prog) (events : List Event)
     (hcase : wfCase h0 (Event.targets events) = true) (hp : (progVals p).all (Val.inb h0.length) = true)
-    (hinit : p.initAllocates = true) (hw : p.initWF h0 = true)
+    (hinit : p.initAllocates = true) (hw : p.initWF h0 = true) (hlaw : p.opLawful = true)
     (r : Reg) (hcr : CacheOK H r)
     (hchain : p.usesChain = false ∨ chainIterAlong H env events r = true) :
-    let out := runProgR H env p events r h0
+    let out := runHistory H env p events r h0
     checkC15R H env r h0 p events (observe env h0.length (out.1, out.2.1)) = true := by
-  have hs := c15_history H env hconv h0 hH hiter p events hcase hp hinit hw r hcr hchain
-  have hf : Frame h0.length h0 (runProgR H env p events r h0).2.1 := by
+  have hs := c15_history H env hconv h0 hH hiter p events hcase hp hinit hw hlaw r hcr hchain
+  have hf : Frame h0.length h0 (runHistory H env p events r h0).2.1 := by
     simp only [wfCase, Bool.and_eq_true] at hcase
     obtain ⟨hcatch, hconvI, _⟩ := WFConv_parts hconv
-    exact (runProgR_spec H env hconv h0 hcase.1 p ⟨allInb hp, hinit, hw⟩ events (allInb hcase.2) r hcr
+    exact (runHistory_spec H env hconv h0 hcase.1 p (allInb hp) hinit hw hlaw events (allInb hcase.2) r hcr
       (histOK_of_bool hH hiter hcatch hconvI events r hchain)).1
-  simp only [checkC15R, hinit, observe, hs.2, take_of_frame rfl hf]
+  simp only [checkC15R, Prog.hyps, hinit, hlaw, observe, hs.2, take_of_frame rfl hf]
   simp
 
 /-! ### lazy Flatten is a pull transducer -/
@@ -548,6 +597,54 @@ theorem c15_lazy_values (h0 : Heap) (k : Nat) (xs ys : List Val) (hj : joinN h0 
   have := Lazy.refPulls_values h0 k xs.length xs
   rw [Lazy.seqLeaves_ok_join h0 k xs ys hj] at this
   exact this
+
+/-- **The lazy objects of the glom model ARE the pull machine.**  What `flatten(levels=k+1,
+    init='lazy')` of the model returns — a chain cell, shown consumed, or the TypeError of a level
+    that met a non-iterable — is what an observer sees who runs the pull machine over the same
+    `k+1` levels and the same items to its end (`Lazy.showRun`): the chain cells of `runFold`'s
+    lazy branch denote `initStack (k+1) items`.  Together with `c15_history` (model = `expectR`)
+    this ties `flattenFn … .lazy` to `Lazy.lazyRun`; `k = 0` is `Flatten(init='lazy')`. -/
+theorem c15_lazy_link (env : Env) (h0 : Heap) (sub : List Val) (k : Nat) (target : Val) (items : List Val)
+    (hitems : refItems env h0 sub target = .ok items) (hnm : noMarkers h0 = true) (hni : NM items) :
+    expectR env h0 (.flattenFn sub .lazy ((k : Int) + 1)) target =
+      Lazy.showRun env (Lazy.lazyRun h0 (k + 1) items) ∧
+    expectR env h0 (.flatten sub .lazy) target = Lazy.showRun env (Lazy.lazyRun h0 1 items) := by
+  have hrun : ∀ n : Nat, Lazy.showRun env (Lazy.lazyRun h0 n items) =
+      match joinN h0 n items with
+      | some ys => .fresh (.tuple "chain" ys)
+      | none => errR env typeErr := by
+    intro n
+    rw [c15_lazy_pulls]
+    have hv := Lazy.refPulls_values h0 n items.length items
+    simp only [Lazy.showRun, Lazy.refLazyRun, hv.1, hv.2, Lazy.joinN_of_leaves h0 n items]
+    cases (Lazy.seqLeaves (Lazy.leaves h0 n) items).2 <;> rfl
+  have hshow : ∀ ys : List Val, NM ys → showNew env h0 (.tuple "chain" ys) =
+      match joinWith (rawIter1 h0) ys with
+      | some zs => .fresh (.tuple "chain" zs)
+      | none => errR env typeErr := by
+    intro ys hys
+    simp only [showNew, beq_self_eq_true, if_true]
+    cases hj : joinWith (rawIter1 h0) ys with
+    | none => rfl
+    | some zs => simp only [(firstRaise_none_iff zs).mpr (joinWith_nm hnm hys hj)]
+  constructor
+  · have h0l : (((k : Int) + 1) == 0) = false := by
+      simp only [beq_eq_false_iff_ne, ne_eq]; omega
+    have hneg : ¬ ((k : Int) + 1) < 0 := by omega
+    have htn : ((k : Int) + 1).toNat - 1 = k := by omega
+    rw [hrun, joinN_succ']
+    simp only [expectR, refProg]
+    rw [refFlattenFn_pos env h0 sub _ _ target h0l hneg rfl, hitems, htn]
+    simp only
+    cases hj : joinN h0 k items with
+    | none => rfl
+    | some ys =>
+      simp only [refAfter, refKind, mkFlatten, if_true, showRef]
+      exact hshow ys (joinN_nm hnm k items ys hni hj)
+  · rw [hrun]
+    simp only [expectR, refProg, refSpec, hitems, refKind, mkFlatten, if_true, showRef, joinN]
+    rw [hshow items hni]
+    cases joinWith (rawIter1 h0) items <;> rfl
 
 /-- the model's run passes the lazy checker (the form evaluated on the implementation's observation) -/
 theorem c15_lazy_checks (h0 : Heap) (k : Nat) (xs : List Val) :
@@ -702,5 +799,50 @@ example : Lazy.refLazyRun [.list "list" [.int 1], .list "list" [], .list "list" 
 example : Lazy.refLazyRun [.list "list" [.int 1], .list "list" [.ref 0, .int 5], .list "list" [.int 2],
       .list "list" [.ref 2]] 2 [.ref 1, .ref 3] =
     (0, [.item (.int 1) 1, .error 1]) := by decide
+
+/-- The law `OpLaw.noOther` is needed, and "no element of the input is mutated" is a statement about
+    glom, not about the caller's `op`: `Fold(T, init=list, op=lambda a, v: (v.append(0), a)[1])`
+    appends to every ELEMENT of its target (the real glom does exactly this; the correspondence
+    runs such cases and the model agrees). -/
+theorem c15_element_writing_op_counterexample :
+    let h0 : Heap := [.list "list" [.int 1], .list "list" [.ref 0]]
+    let out := runProg exEnv (.fold [] .list .pokeElem) [.ref 1] h0
+    out.1 = [.ok (.ref 2)] ∧ out.2[0]? = some (.list "list" [.int 1, .int 0]) ∧ out.2[0]? ≠ h0[0]? ∧
+    ¬ OpLaw h0 (pyOp .pokeElem) := by
+  refine ⟨by decide, by decide, by decide, ?_⟩
+  intro L
+  exact L.noOther (h := [.list "list" [.int 1], .list "list" [.ref 0]]) (sv := .cell (.list "list" []))
+    (v := .ref 0) (a := 0) (o := .list "list" [.int 1, .int 0]) rfl
+
+-- 6be71d7: an UnregisteredTarget raised INSIDE the loop is not turned into a FoldError —
+-- by the iterator (a generator that raises after yielding [1]) …
+example : (glomit exEnv (mkFlatten [] (.init .list))
+      [.list "list" [.int 1], .tuple "generator" [.ref 0, .sent "!raise:UnregisteredTarget", .ref 0]] (.ref 1)).1 =
+    .error (.raised "UnregisteredTarget") := by decide
+-- … or by the operator (`lambda a, v: a + list(v)` raising UnregisteredTarget for the int) …
+example : (glomit exEnv (mkFold [] .list .addSeq) [.list "list" [.int 1], .list "list" [.ref 0, .int 3]] (.ref 1)).1 =
+    .error (.raised "UnregisteredTarget") := by decide
+-- … while the int as the TARGET is a FoldError
+example : (glomit exEnv (mkFold [] .list .addSeq) [] (.int 3)).1 = .error .fold := by decide
+-- 8b51f6e: a `False` remembered by `get_handler('iterate', 5, raise_exc=False)` does not turn the
+-- FoldError of the next Fold into a TypeError
+example :
+    (runHistory exHier genEnv (.sum [] .int) [.probe "object", .eval (.ref 0)] (specReg exHier)
+      [.inst "object" []]).1 = [.error .fold] ∧
+    (getHandler15 exHier (specReg exHier) "iterate" "object" false).1.cache = [(("object", "iterate"), none)] := by
+  decide
+-- constructors: `Fold(T, init=5, op=5)`, `Flatten(init='LAZY')`, `Merge(op=5)`, `flatten(levels=None)`
+example : ctorErr (.fold [] .notCallable .notCallable) = some typeErr ∧
+    ctorErr (.flatten [] (.init .notCallable)) = some typeErr ∧
+    (mkMerge [] .dict .notCallable []).1 = .error (.raised "ValueError") ∧
+    (oddCall .levelsNone [] (.int 1)).1 = .error typeErr ∧
+    (oddCall (.levelsFloat "0000000000000000") [] (.int 1)).1 = .ok (.int 1) ∧       -- levels=0.0
+    (oddCall (.levelsFloat "bff8000000000000") [] (.int 1)).1 = .error (.raised "ValueError") ∧  -- -1.5
+    (oddCall (.levelsFloat "4000000000000000") [] (.int 1)).1 = .error typeErr := by decide     -- 2.0
+-- reading 6.x(b): `Flatten(init=tuple)` over lists, `Flatten(init=set)`: the `+=` of the init type decides
+example : (glomit exEnv (mkFlatten [] (.init .tuple)) [.list "list" [.int 1], .list "list" [.ref 0]] (.ref 1)).1 =
+      .error typeErr ∧
+    (glomit exEnv (mkFlatten [] (.init .set)) [.set "set" [.int 1], .list "list" [.ref 0]] (.ref 1)).1 =
+      .error typeErr := by decide
 
 end Glom.Props.C15
